@@ -252,6 +252,18 @@ pub fn run(ctx: &mut Ctx) {
             }
         }
     }
+    // structured three-run family (deterministic, no generator involved): class A x a, class B x b, class C x c with
+    // adjacent classes different; run lengths around the thresholds the planner's look-ahead heuristics use (digit
+    // runs 1..9 in particular). Judged like the fixed corpus: strictly, exact cases.
+    {
+        let total = family3_count();
+        let mut i = ctx.shard;
+        while i < total {
+            let c = family3_case(i);
+            eval(ctx, &c, "structured_three_run_family", true, true);
+            i += ctx.nshards;
+        }
+    }
     // fixed corpus (independent of VERIF_SEED and of the shard count): violations are keyed by exact case
     let ncorpus = 60_000;
     for i in 0..ncorpus {
@@ -284,6 +296,39 @@ pub fn run(ctx: &mut Ctx) {
         let use_ropt = c.input.len() <= 300 || (c.input.len() <= 1000 && ctx.rng.chance(1, 4));
         eval(ctx, &c, "generated", use_ropt, false);
     }
+}
+
+// ---- deterministic three-run family (FROZEN: the exact known-finding keys depend on it) ----
+const F3_CLASSES: [&[u8]; 7] = [b"abcdefghijklmnopqrstuvwxyz", b"ABCDEFGHIJKLMNOPQRSTUVWXYZ", b"1234567890", b"*>", b".,-/:", b" ", &[0xE9, 0xFC, 0x80]];
+const F3_A: [usize; 8] = [0, 1, 2, 3, 4, 6, 9, 12];
+const F3_B: [usize; 9] = [1, 2, 3, 4, 5, 6, 7, 8, 9];
+const F3_C: [usize; 5] = [0, 1, 2, 4, 5];
+pub fn family3_count() -> usize {
+    7 * 6 * 6 * F3_A.len() * F3_B.len() * F3_C.len()
+}
+pub fn family3_case(mut i: usize) -> EncCase {
+    let c = F3_C[i % F3_C.len()];
+    i /= F3_C.len();
+    let b = F3_B[i % F3_B.len()];
+    i /= F3_B.len();
+    let a = F3_A[i % F3_A.len()];
+    i /= F3_A.len();
+    // class triple with A != B and B != C
+    let kc = i % 6;
+    i /= 6;
+    let kb = i % 6;
+    i /= 6;
+    let ca = i % 7;
+    let cb = (ca + 1 + kb) % 7;
+    let cc = (cb + 1 + kc) % 7;
+    let mut input = Vec::with_capacity(a + b + c);
+    for (cls, n, off) in [(ca, a, 0usize), (cb, b, 3), (cc, c, 5)] {
+        let al = F3_CLASSES[cls];
+        for j in 0..n {
+            input.push(al[(j + off) % al.len()]);
+        }
+    }
+    EncCase { input, list: "default".to_string(), mask: 63, macros: false, fnc1: false, eci: None, order: 0, prelude: 0, skipdef: false, entry: 0 }
 }
 
 fn gen_small_r(rng: &mut crate::rng::Rng, max: usize) -> Vec<u8> {
